@@ -162,6 +162,12 @@ func runLoopPacing(c *Ctx, rule string, pkgs []string, min int) {
 			continue
 		}
 		for _, l := range condLessLoops(f) {
+			if pureComputationLoop(l) {
+				// a search / scan loop written as `for { ... break ... }` over strings or slices: it calls nothing that
+				// could wait for, or look at, anything outside the goroutine, so it is no reload/watch loop and "spins
+				// while the source stays unusable" does not apply to it
+				continue
+			}
 			n++
 			b := spinCycle(l)
 			pos := l.Head.Instrs[0].Pos()
@@ -284,4 +290,35 @@ func runConsulWatchLoops(c *Ctx, rule string, pkgs []string, min int) {
 		}
 	}
 	c.atLeast(rule, "Consul queries inside watch loops of "+strings.Join(pkgs, ","), n, min)
+}
+
+// purePkgs: standard-library packages whose functions only compute on their arguments.
+var purePkgs = map[string]bool{"strings": true, "bytes": true, "strconv": true, "unicode": true, "unicode/utf8": true,
+	"slices": true, "maps": true, "sort": true, "math": true, "math/bits": true}
+
+// pureComputationLoop: the loop body contains no channel operation, go or defer statement, and every call in it is a
+// builtin or a static call of a function of purePkgs. Anything else (a repository function, a method through an
+// interface, I/O, time) makes the loop a candidate watch loop as before.
+func pureComputationLoop(l *loop) bool {
+	for b := range l.Body {
+		for _, in := range b.Instrs {
+			switch x := in.(type) {
+			case *ssa.Send, *ssa.Select, *ssa.Go, *ssa.Defer:
+				return false
+			case *ssa.UnOp:
+				if x.Op == token.ARROW {
+					return false
+				}
+			case *ssa.Call:
+				if _, isBuiltin := x.Call.Value.(*ssa.Builtin); isBuiltin {
+					continue
+				}
+				callee := x.Call.StaticCallee()
+				if callee == nil || callee.Pkg == nil || callee.Pkg.Pkg == nil || !purePkgs[callee.Pkg.Pkg.Path()] {
+					return false
+				}
+			}
+		}
+	}
+	return true
 }
